@@ -569,3 +569,14 @@ def feq(a, b):
     at run time within 4 ulp-ish relative tolerance, because IEEE rounding is not what the proof is about"""
     import math
     return a == b or math.isclose(a, b, rel_tol=1e-12, abs_tol=0.0)
+
+
+# ------------------------------------------------------------------ Note objects
+
+def pitch(n):
+    """12 x octave + natural pitch of the letter + sharps - flats"""
+    return 12 * n.octave + base(n.name[0]) + net(n.name)
+
+
+def name_pitch(name, octave):
+    return 12 * octave + base(name[0]) + net(name)
